@@ -48,6 +48,12 @@ var canaries = map[string][]canary{
 	"C09": {
 		{"join/join.go", "\t\tsvcs.Close()\n\t\treturn nil, err\n", "\t\tsvcbase.Close()\n\t\treturn nil, err\n", "T-WHO(join-Close)/join:IngressPods", "a join closing a controller it was handed"},
 	},
+	"C13": {
+		{"ticker.go", "\t\t\ttimer.Reset(t.nextPeriod())\n\t\t\tnextch = nil\n\n\t\tcase <-t.stopch:", "\t\t\ttimer.Reset(t.nextPeriod())\n\t\t\tnextch = nil\n\t\t\ttimer.Stop()\n\n\t\tcase <-t.stopch:", "T-TABLE(_ticker.run)/_ticker.run/case[arm=reset", "the timer stopped again after the reset arm has re-armed it"},
+	},
+	"C17": {
+		{"types/service/filter.go", "\t\treturn labels.Equals(f.target, other.target)\n", "\t\t_ = labels.Equals\n\t\treturn func(a, b map[string]string) bool {\n\t\t\tif len(a) != len(b) {\n\t\t\t\treturn false\n\t\t\t}\n\t\t\tfor k, v := range a {\n\t\t\t\tif b[k] != v {\n\t\t\t\t\treturn false\n\t\t\t\t}\n\t\t\t}\n\t\t\treturn true\n\t\t}(f.target, other.target)\n", "T-COVERS(Equals)/types/service:serviceForFilter.Equals", "a hand-written map comparison without the presence check (absent key ≡ empty value) in place of labels.Equals"},
+	},
 	"C15": {
 		{"cache.go", "func (c *_cache) Error() error {\n\treturn c.lc.Error()\n}", "func (c *_cache) Error() error {\n\t_ = len(c.items)\n\treturn c.lc.Error()\n}", "T-CONFINE(_cache)/_cache.items/accessed-in/_cache.Error", "cache map read from a caller's goroutine"},
 	},
